@@ -19,6 +19,7 @@ CLAIMS = {
  "C09": ("model_checking", "All four loaders against the stored replica of every bounded history; in the explore runs every interleaving of the fetcher's worker goroutines (= every block arrival order) is enumerated by the engine's scheduler while data stays symbolic; result compared with the original log.", "§5 C09"),
  "C10": ("model_checking", "As C09 with every limit n in [0,size+1]; the expected set is computed by a reference oracle that does not depend on the schedule, so equality on every explored schedule is the required independence from concurrency and arrival order.", "§5 C10"),
  "C11": ("model_checking", "Symbolic fault table (absent / undecodable / hung) and exclusion set over the stored log, every worker interleaving; deadlock = non-termination; request journal checked for duplicates and excluded hashes; result compared with reference reachability.", "§5 C11"),
+ "C12": ("model_checking", "The repository's conversion of decoded blocks (Entry.ToPlain, EntryV0.ToPlain, Identity/IdentitySignature/LamportClock.ToPlain) and everything callable on an accepted entry are executed symbolically on values with absent/empty/symbolic fields: every path must end without a run-time panic (nil dereference, index, conversion are implicit assertions). Claimed for structured values only, not for raw bytes through refmt/encoding-json.", "§5 C12"),
  "C13": ("model_checking", "Every unordered combination of two (thorough: three) operations on one shared log from every bounded pre-state, every interleaving at lock operations within the preemption bound, with a vector-clock happens-before race detector on every heap cell; deadlock = no enabled goroutine; reads and final state checked against the structural predicates.", "§5 C13"),
  "C14": ("model_checking", "A.Join(B) against concurrent appends / merges on B (and the symmetric cross-merge) from every bounded pre-state, every interleaving at lock operations within the preemption bound, RWMutex with writer preference; deadlock = no enabled goroutine; result compared with the source's states.", "§5 C14"),
  "C15": ("model_checking", "Iterator over the replica of every bounded history with every upper/lower bound combination and a symbolic amount, compared with a reference range computation; panics and a non-closed channel are violations.", "§5 C15"),
